@@ -66,6 +66,34 @@ def metadata():
     return _meta
 
 
+# the HomeKit category each accessory constructor announces (the library's choice), by its name in the metadata
+CATEGORY_OF = {"New": "Other", "Bridge": "Bridge", "Camera": "IP Camera", "ColoredLightbulb": "Lightbulb", "Lightbulb": "Lightbulb", "Outlet": "Outlet",
+               "Switch": "Switch", "Television": "Television", "TemperatureSensor": "Thermostat", "Thermostat": "Thermostat", "Window": "Window"}
+_cats = None
+
+
+def categories():
+    global _cats
+    if _cats is None:
+        import json
+        m = json.load(open(os.path.join(core.REPO, "gen", "metadata.json")))
+        _cats = {x["Name"]: int(x["Category"]) for x in m["Categories"]}
+    return _cats
+
+
+def category_constants():
+    """accessory/constant.go against the metadata's category list (read by regular expression, independent of the translator):
+    [(constant, value, metadata value)] for every constant whose name matches a metadata category and whose value differs"""
+    src = open(os.path.join(core.REPO, "accessory", "constant.go")).read()
+    norm = lambda n: re.sub(r"[^a-z0-9]", "", n.lower())
+    want = {norm(k): v for k, v in categories().items()}
+    bad = []
+    for n, v in re.findall(r"^\s*Type(\w+)\s+AccessoryType\s*=\s*(\d+)\s*$", src, flags=re.M):
+        if norm(n) in want and want[norm(n)] != int(v):
+            bad.append((n, int(v), want[norm(n)]))
+    return bad
+
+
 def num(t):
     return None if t in ("-", "", None) else float(re.sub(r"[if]$", "", t))
 
@@ -120,12 +148,18 @@ def oracle(c, obs):
     if c["kind"] == "char" and " served=" in obs:
         return "the characteristic of %s as served to a controller (its JSON) does not declare what the object declares: %s" % (c["line"], obs.split(" served=")[1][:120])
     if c["kind"] == "acc":
+        bad = category_constants()
+        if bad:
+            return "accessory category constant Type%s = %d, the metadata numbers that category %d" % bad[0]
         accs = obs.split(" ")
         if len(accs) != 42:
             return "an accessory constructor failed: " + obs[:200]
         bytype = {v["short"].upper(): v for v in metadata()["svc"].values()}
         for a in accs:
-            name, nsvc, nch, svcs, vals = a.split(":", 4)
+            name, nsvc, nch, svcs, vals, cat = a.split(":", 5)
+            cname = CATEGORY_OF.get(name.split(".")[0].split("@")[0])
+            if cname and int(cat) != categories()[cname]:
+                return "accessory constructor %s returns category %s, the metadata numbers category '%s' %d" % (name.split(".")[0], cat, cname, categories()[cname])
             want = None
             if "@" in name:
                 t, lo, hi = [float(x) for x in name.split("@")[1].rsplit(".", 1)[0].split(",")]
